@@ -45,6 +45,12 @@ LawOk(r, ob) ==
             THEN /\ ob.out.o = "ok" /\ ob.out.v.t = "list" /\ Len(ob.out.v.s) >= 1 /\ ob.out.v.s[1].t = "str"
                  /\ IsSubstring(ob.out.v.s[1].s, r.bind.s.s) /\ ReFull(r.extra.re, ob.out.v.s[1].s)
             ELSE ob.out.o = "ok" /\ ob.out.v = VNull
+      [] law = "tz" ->        \* a zone accessor: the driver supplied the zone's offset at that instant (seconds)
+            ob.out.o = "ok" /\ ob.out.v = VInt(BFromInt(TsAccessor(r.tree.f, r.bind.t.ns, r.extra.off)))
+      [] law = "uom" ->       \* agreement with the exact unit definitions within 1e-6 relative
+            /\ ob.out.o = "ok" /\ ob.out.v.t = "dbl" /\ DIsFinite(DOf(ob.out.v))
+            /\ WithinTol(DOf(ob.out.v), ToDbl(r.bind.x), UnitTable[r.extra.ua].f, UnitTable[r.extra.ub].f, 6)
+            /\ DOf(ob.out.v).neg = ToDbl(r.bind.x).neg
       [] law = "dblstr" -> ob.out.o = "ok" /\ ob.out.v.t = "str" /\ ConvDouble(ob.out.v) = Ok(r.bind.x)
       [] OTHER -> TRUE
 
